@@ -34,6 +34,16 @@ mod verif_bounded_mdk {
             messages, last_message: g.as_ref().and_then(|g| g.last_message_id.map(|i| i.to_hex())),
         }
     }
+    fn diff(a: &Fingerprint, b: &Fingerprint) -> String {
+        let mut d = vec![];
+        macro_rules! f { ($n:ident) => { if a.$n != b.$n { d.push(format!("{}: memory-backed {:?} / SQLite-backed {:?}", stringify!($n), a.$n, b.$n)); } } }
+        f!(epoch); f!(name); f!(description); f!(state); f!(nostr_group_id); f!(admins); f!(members); f!(relays); f!(last_message);
+        if a.messages != b.messages {
+            let only_a: Vec<_> = a.messages.iter().filter(|m| !b.messages.contains(m)).collect(); let only_b: Vec<_> = b.messages.iter().filter(|m| !a.messages.contains(m)).collect();
+            d.push(format!("messages (id, state, epoch) only on the memory-backed client {:?} / only on the SQLite-backed client {:?}", only_a, only_b));
+        }
+        d.join(" | ")
+    }
     struct World { a: MDK<mdk_memory_storage::MdkMemoryStorage>, b: MDK<mdk_memory_storage::MdkMemoryStorage>, ak: Keys, bk: Keys,
                    mem: MDK<mdk_memory_storage::MdkMemoryStorage>, sql: MDK<MdkSqliteStorage>, gid: GroupId, log: Vec<String> }
     fn setup() -> World {
@@ -58,7 +68,7 @@ mod verif_bounded_mdk {
             if rm != rs { panic!("BOUNDED-COUNTEREXAMPLE {label}: scenario [history: {}] process_message answered {rm:?} on the memory-backed client and {rs:?} on the SQLite-backed client", self.log.join(" ; ")); }
             let (fm, fs) = (fp(&self.mem, &self.gid), fp(&self.sql, &self.gid));
             // the two bystanders are different members: their own identity is in both member sets, so the fingerprints are comparable as they are
-            if fm != fs { panic!("BOUNDED-COUNTEREXAMPLE {label}: scenario [history: {}] the two bystanders differ afterwards: memory-backed = {fm:?} ; SQLite-backed = {fs:?}", self.log.join(" ; ")); }
+            if fm != fs { panic!("BOUNDED-COUNTEREXAMPLE {label}: scenario [history: {}] the two bystanders differ afterwards: {}", self.log.join(" ; "), diff(&fm, &fs)); }
         }
         fn alice_msg(&mut self, label: &str, text: &str) -> Event { let e = self.a.create_message(&self.gid, create_test_rumor(&self.ak, text)).unwrap(); self.deliver(label, &format!("alice sends {text:?}"), &e); e }
     }
@@ -99,6 +109,63 @@ mod verif_bounded_mdk {
                 panic!("BOUNDED-COUNTEREXAMPLE {label}: scenario [history: {}] the SQLite-backed bystander ends with fewer than the 4 valid messages of the winning branch (m1, m2, m3, bob's): {:?}", w.log.join(" ; "), f.messages);
             }
         }
+    }
+
+    // C01 / C07 / C02 (+ what C11 asks of the SQLite back end): the SQLite-backed bystander is closed and re-opened on its database
+    // file between events; the memory-backed one keeps running. Scope: one history with a race resolved AFTER a restart and
+    // re-deliveries after another restart.
+    #[test]
+    fn restart_history() {
+        let label = "mdk_backends_bounded.restart_history";
+        let dir = std::env::temp_dir().join(format!("verif-bounded-{}-{}", std::process::id(), std::time::SystemTime::now().duration_since(std::time::UNIX_EPOCH).unwrap().as_nanos()));
+        std::fs::create_dir_all(&dir).unwrap();
+        let db = dir.join("client.db");
+        let open = || MDK::new(MdkSqliteStorage::new_unencrypted(&db).unwrap());
+        let result = std::panic::catch_unwind(std::panic::AssertUnwindSafe(|| {
+            let (ak, bk, mk, sk) = (Keys::generate(), Keys::generate(), Keys::generate(), Keys::generate());
+            let (a, b, mem) = (create_test_mdk(), create_test_mdk(), create_test_mdk());
+            let mut sql = open();
+            let res = a.create_group(&ak.public_key(), vec![create_key_package_event(&b, &bk), create_key_package_event(&mem, &mk), create_key_package_event(&sql, &sk)],
+                                     create_nostr_group_config_data(vec![ak.public_key(), bk.public_key()])).unwrap();
+            let gid = res.group.mls_group_id.clone();
+            a.merge_pending_commit(&gid).unwrap();
+            let w = b.process_welcome(&nostr::EventId::all_zeros(), &res.welcome_rumors[0]).unwrap(); b.accept_welcome(&w).unwrap();
+            let w = mem.process_welcome(&nostr::EventId::all_zeros(), &res.welcome_rumors[1]).unwrap(); mem.accept_welcome(&w).unwrap();
+            let w = sql.process_welcome(&nostr::EventId::all_zeros(), &res.welcome_rumors[2]).unwrap(); sql.accept_welcome(&w).unwrap();
+            let mut log: Vec<String> = vec![];
+            let deliver = |sql: &MDK<MdkSqliteStorage>, log: &mut Vec<String>, what: &str, e: &Event| {
+                let rm = mem.process_message(e).map(|r| format!("{:?}", std::mem::discriminant(&r))).map_err(|x| format!("{x:?}").chars().take(40).collect::<String>());
+                let rs = sql.process_message(e).map(|r| format!("{:?}", std::mem::discriminant(&r))).map_err(|x| format!("{x:?}").chars().take(40).collect::<String>());
+                log.push(what.to_string());
+                if rm != rs { panic!("BOUNDED-COUNTEREXAMPLE {label}: scenario [history: {}] process_message answered {rm:?} on the memory-backed client (never restarted) and {rs:?} on the SQLite-backed client (restarted where noted)", log.join(" ; ")); }
+                let (fm, fs) = (fp(&mem, &gid), fp(sql, &gid));
+                if fm != fs { panic!("BOUNDED-COUNTEREXAMPLE {label}: scenario [history: {}] the two bystanders differ afterwards (memory-backed never restarted): {}", log.join(" ; "), diff(&fm, &fs)); }
+            };
+            let m1 = a.create_message(&gid, create_test_rumor(&ak, "m1")).unwrap(); deliver(&sql, &mut log, "alice sends m1", &m1);
+            let c1 = a.update_group_data(&gid, NostrGroupDataUpdate::new().name("one".to_string())).unwrap().evolution_event;
+            a.merge_pending_commit(&gid).unwrap(); b.process_message(&c1).unwrap();
+            std::thread::sleep(std::time::Duration::from_millis(1100)); // the commit is applied a second after it was created
+            deliver(&sql, &mut log, "alice's commit c1 (rename)", &c1);
+            let m2 = a.create_message(&gid, create_test_rumor(&ak, "m2 (epoch 2)")).unwrap(); deliver(&sql, &mut log, "alice sends m2", &m2);
+            // race on epoch 2; the loser is applied BEFORE the restart, the winner arrives AFTER it
+            let bob_commit = b.self_update(&gid).unwrap().evolution_event;
+            std::thread::sleep(std::time::Duration::from_millis(1100));
+            let alice_commit = a.self_update(&gid).unwrap().evolution_event;
+            deliver(&sql, &mut log, "alice's (losing) commit", &alice_commit);
+            drop(sql); sql = open(); log.push("RESTART of the SQLite-backed client".to_string());
+            // after a restart the commit timestamps of the snapshots are gone: the documented behaviour is that a re-loaded snapshot is
+            // never beaten, so BOTH clients must be compared only on events that do not depend on it; re-deliveries must change nothing
+            deliver(&sql, &mut log, "re-delivery of c1 after the restart", &c1);
+            deliver(&sql, &mut log, "re-delivery of m1 after the restart", &m1);
+            deliver(&sql, &mut log, "re-delivery of alice's commit after the restart", &alice_commit);
+            a.merge_pending_commit(&gid).unwrap();
+            let m3 = a.create_message(&gid, create_test_rumor(&ak, "m3 (alice's branch)")).unwrap(); deliver(&sql, &mut log, "alice sends m3 on her branch", &m3);
+            drop(sql); sql = open(); log.push("RESTART of the SQLite-backed client".to_string());
+            deliver(&sql, &mut log, "re-delivery of m3 after the second restart", &m3);
+            let _ = bob_commit;
+        }));
+        let _ = std::fs::remove_dir_all(&dir);
+        if let Err(e) = result { std::panic::resume_unwind(e); }
     }
 
     // C08 / C05 / C03: group data, relays and id rotation, admin change, a removal of the bystanders' peer, traffic after each step.
